@@ -87,6 +87,9 @@ def items : Node → List Node
   | _ => []
 end Node
 
+/-- `s.startswith(p)`, on character lists (so that it is easy to reason about) -/
+def hasPrefix (p s : String) : Bool := p.toList.isPrefixOf s.toList
+
 def corePrefix : String := "tag:yaml.org,2002:"
 def tStr : String := "tag:yaml.org,2002:str"
 def tInt : String := "tag:yaml.org,2002:int"
